@@ -2,6 +2,6 @@ SPECIFICATION GSpec
 CONSTANTS
   MaxSteps = 5
   Variant = "asWritten"
-  Codes = {101, 103, 200, 404}
-INVARIANTS Emit FreshAfterReset CodeOK LastWins
+  Codes = {101, 103, 404}
+INVARIANTS Emit FreshAfterReset HijackReaches CodeOK LastWins
 CHECK_DEADLOCK FALSE
